@@ -3,7 +3,7 @@
    clean states, "nothing diverted", packaged for Proofs/FwLife_gen_sess.v. *)
 From Coq Require Import String List NArith ZArith Ascii Bool Lia Arith.
 From SV Require Import Lib.Bytes Model.FwLife Model.FwLifeSpec Proofs.FwLife_lemmas
-  Proofs.FwLife_gen1_wip Proofs.FwLife_gen2_wip Proofs.FwLife_gen3_wip Proofs.FwLife_gen4_wip.
+  Proofs.FwLife_gen_run Proofs.FwLife_gen_tbl Proofs.FwLife_gen_ipt Proofs.FwLife_gen_sess.
 Import ListNotations.
 
 Lemma erase_nft_nil L : erase_nft [] L = L.
